@@ -468,16 +468,91 @@ def _items(ans):
 
 
 # ---- C16 ------------------------------------------------------------------------------------------------------
+WE_QUERIES = ["pages", "crawled", "mostlinked", "children", "pagelinks", "weout", "wein"]
+NET_QUERIES = ["net", "netslow"]
+QUERY_KINDS = WE_QUERIES + NET_QUERIES
+
+
+def _we_query(r, kind, w, ps):
+    """(kind, co-arguments, description for the probes) of a per-webentity query generator"""
+    pa = brack([hx(p) for p in ps])
+    if kind in ("pages", "crawled", "weout", "wein", "children"):
+        return (kind, "%d %s" % (w, pa), {"w": w, "ps": pa})
+    if kind == "mostlinked":
+        k = r.choice([1, 2, 3, 1000, 1000])
+        d = r.choice(["-", "-", "-", "0", "1", "2"])
+        return (kind, "%d %s %d %s" % (w, pa, k, d), {"w": w, "ps": pa, "k": k, "d": d})
+    if kind == "pagelinks":
+        fl = r.choice(["011", "011", "111", "100", "010", "001", "110", "101"])
+        return (kind, "%d %s %s" % (w, pa, " ".join(fl)), {"w": w, "ps": pa, "fl": " ".join(fl)})
+    raise ValueError(kind)
+
+
+def _probe_line(kind, a):
+    if kind == "pages":
+        return "? pages %d %s" % (a["w"], a["ps"])
+    if kind == "crawled":
+        return "? crawledpages %d %s" % (a["w"], a["ps"])
+    if kind == "mostlinked":
+        return "? mostlinked %d %s 1000000 %s" % (a["w"], a["ps"], a["d"])
+    if kind == "children":
+        return "? children %d %s" % (a["w"], a["ps"])
+    if kind == "pagelinks":
+        return "? pagelinks %d %s %s" % (a["w"], a["ps"], a["fl"])
+    if kind in ("weout", "wein"):
+        return "? %s %d %s" % (kind, a["w"], a["ps"])
+    if kind == "net":
+        return "? network %s %s 0" % (a["o"], a["a"])
+    if kind == "netslow":
+        return "? network %s %s 1" % (a["o"], a["a"])
+    raise ValueError(kind)
+
+
+def _pages_under(ses, prefixes):
+    return sorted(set(p for p in ses.pages if any(p.startswith(q) for q in prefixes)))
+
+
+def _busy_we(r, ses):
+    """a webentity of the index, with a bias towards those that own many of the session's pages"""
+    m = ses.we_map()
+    if not m:
+        return None, [], m
+    ws = sorted(m)
+    if r.random() < 0.6:
+        w = max(ws, key=lambda x: (len(_pages_under(ses, m[x])), -x))
+    else:
+        w = r.choice(ws)
+    return w, m[w], m
+
+
 def _co_scenario(r, ses):
-    """2-3 generator requests on the session's current state"""
+    """2-3 generator requests on the session's current state: at least one writer (crawl batch, rule installation), the others
+    drawn from the nine query generators. With a query on board, the index is first given links and the writers are aimed at
+    the webentity the query is about."""
     reqs = []
     n = r.choice([2, 2, 3])
-    kinds = r.sample(["batch", "batch", "rule", "pages", "net", "pages", "batch"], n)
-    if r.random() < 0.5:
-        kinds = ["batch", "batch"] + (["batch"] if n == 3 else [])
-    if "batch" not in kinds and "rule" not in kinds:
-        kinds[0] = "batch"
+    if r.random() < 0.3:
+        kinds = ["batch"] * n
+    else:
+        nw = 1 if n == 2 or r.random() < 0.6 else 2
+        kinds = [r.choice(["batch", "batch", "batch", "rule"]) for _ in range(nw)] + [r.choice(QUERY_KINDS) for _ in range(n - nw)]
+        r.shuffle(kinds)
+    focus = None
+    if any(k in QUERY_KINDS for k in kinds):
+        for _ in range(r.randint(1, 3)):
+            ses.w_addlinks() if r.random() < 0.7 else ses.w_batch()
+        w, ps, _ = _busy_we(r, ses)
+        if w is not None and r.random() < 0.8:
+            under = _pages_under(ses, ps)
+            if len(under) >= 2 and r.random() < 0.7:
+                ses.do("addlinks " + brack(["%s>%s" % (hx(r.choice(under)), hx(r.choice(under) if r.random() < 0.7 else ses.page_lru()))
+                                            for _ in range(r.randint(1, 4))]))
+            focus = (w, ps, under)
     shared = [ses.page_lru() for _ in range(r.randint(2, 3))] + [ses.new_lru()]
+    if focus and r.random() < 0.7:
+        w, ps, under = focus
+        shared = (r.sample(under, min(len(under), 3)) or [ses.page_lru()]) + \
+                 [r.choice(under or ps) + b"p:zz%d|" % j for j in range(r.randint(1, 2))] + [ses.page_lru()]
     for k in kinds:
         if k == "batch":
             pool = shared if r.random() < 0.7 else [ses.page_lru() for _ in range(r.randint(1, 4))]
@@ -488,23 +563,27 @@ def _co_scenario(r, ses):
             reqs.append(("batch", ";".join("%s>%s" % (hx(s), ",".join(hx(t) for t in ts)) for s, ts in data.items()), data))
         elif k == "rule":
             from .gen import stems_of, RULE_NAMES
-            st = stems_of(ses.any_lru())
+            st = stems_of(r.choice(focus[2] or focus[1]) if focus and r.random() < 0.6 else ses.any_lru())
             a = b"".join(st[: r.randint(1, len(st))])
             reqs.append(("rule", "%s %s" % (hx(a), r.choice(RULE_NAMES[1:])), None))
-        elif k == "pages":
-            w, ps = ses.pick_we()
-            m = ses.we_map()
-            if w not in m:
-                continue
-            reqs.append(("pages", "%d %s" % (w, brack([hx(p) for p in m[w]])), (w, m[w])))
+        elif k in WE_QUERIES:
+            if focus and r.random() < 0.8:
+                w, ps = focus[0], focus[1]
+            else:
+                w, ps = ses.pick_we()
+                m = ses.we_map()
+                if w not in m:
+                    continue
+                ps = m[w]
+            reqs.append(_we_query(r, k, w, ps))
         else:
             o, a = r.choice("01"), r.choice("01")
-            reqs.append(("net", "%s %s" % (o, a), (o, a)))
+            reqs.append((k, "%s %s" % (o, a), {"o": o, "a": a}))
     return reqs
 
 
 def _carve_scenario(r, ses):
-    """directed family: a page query over a webentity with several folders is suspended after a few steps, then a rule
+    """directed family: a query over a webentity with several folders is suspended after a few steps, then a rule
     installation carves new webentities out of folders the traversal has not reached yet and a crawl batch adds pages
     below them, then the query is resumed (stale traversal state of any kind shows here)"""
     dom = b"s:http|h:com|h:" + r.choice([b"site", b"m", b"zz"]) + b"|"
@@ -524,17 +603,112 @@ def _carve_scenario(r, ses):
         return [], []
     fresh = [dom + r.choice(folders) + b"p:new%d|" % j for j in range(r.randint(1, 3))]
     data = {fresh[0]: fresh[1:] + ([r.choice(pages)] if r.random() < 0.5 else [])}
-    reqs = [("pages", "%d %s" % (w, brack([hx(p) for p in m[w]])), (w, m[w])),
+    qkind = "pages" if r.random() < 0.35 else r.choice(WE_QUERIES)
+    if qkind != "pages" and len(pages) > 1:
+        ses.do("addlinks " + brack(["%s>%s" % (hx(r.choice(pages)), hx(r.choice(pages))) for _ in range(r.randint(1, 5))]))
+    reqs = [_we_query(r, qkind, w, m[w]),
             ("rule", "%s %s" % (hx(dom), r.choice(["path1", "path1", "path2"])), None),
             ("batch", ";".join("%s>%s" % (hx(a), ",".join(hx(t) for t in ts)) for a, ts in data.items()), data)]
     plan = [0] * r.randint(1, len(pages)) + [1] * 400 + [2] * 400
     return reqs, plan
 
 
+def _net_pairs(a):
+    ps = set()
+    for row in _items(a):
+        src = row.split(":")[0]
+        inner = row.split("{")[1].rstrip("}")
+        for tw in (inner.split("/") if inner else []):
+            ps.add((src, tw.split("=")[0]))
+    return ps
+
+
+def _keyed(kind, a):
+    """{item key: number attached to it (or None)} of an answer"""
+    if kind in ("net", "netslow"):
+        return {k: None for k in _net_pairs(a)}
+    out = {}
+    for x in _items(a):
+        if kind in ("pages", "crawled"):
+            out[x.split(":")[0]] = None
+        elif kind in ("mostlinked", "pagelinks"):
+            k, n = x.rsplit(":", 1)
+            out[k] = int(n)
+        else:
+            out[x] = None
+    return out
+
+
+_WORDS = {
+    # kind: (what is missed, what is reported although it qualified at no moment)
+    "pages": ("page query misses a page that belonged to the webentity throughout its execution",
+              "page query reports a page that never belonged to the webentity during its execution"),
+    "crawled": ("page query (crawled pages) misses a crawled page that belonged to the webentity throughout its execution",
+                "page query reports a crawled page that never belonged to the webentity during its execution"),
+    "mostlinked": ("page query (most linked, room for all) misses a page that belonged to the webentity throughout its execution",
+                   "page query reports a most-linked page that never belonged to the webentity during its execution"),
+    "children": ("child-webentity query misses a webentity that lay below the prefixes throughout its execution",
+                 None),
+    "pagelinks": ("page-link query misses a link that qualified throughout its execution",
+                  "page query reports a page link that existed at no moment of its execution"),
+    "weout": ("cited-webentity query misses a webentity cited throughout its execution (no webentity created meanwhile)",
+              "page query reports a cited webentity that existed at no moment of its execution in the cited set"),
+    "wein": ("citing-webentity query misses a webentity citing throughout its execution (no webentity created meanwhile)",
+             "page query reports a citing webentity that existed at no moment of its execution in the citing set"),
+    "net": ("network query misses a webentity link present throughout its execution",
+            "network query reports a webentity link that existed at no moment of its execution"),
+    "netslow": ("network query (slow variant) misses a webentity link present throughout its execution",
+                "network query reports a webentity link (slow variant) that existed at no moment of its execution"),
+}
+
+
+def _judge_query(kind, arg, answer, probes, static_we):
+    """two-sided bound of C16 for one query generator: (violations, phantoms) as lists of (reason, detail)"""
+    hits, known = [], []
+    got = _keyed(kind, answer)
+    maps = [_keyed(kind, p) for p in probes if p.startswith("ok")]
+    if not maps:
+        return hits, known
+    lower = set.intersection(*[set(m) for m in maps])
+    upper = set.union(*[set(m) for m in maps])
+    miss_words, phantom_words = _WORDS[kind]
+    check_lower = True
+    if kind == "mostlinked":
+        check_lower = arg["k"] >= max(len(m) for m in maps)
+        if len(got) > arg["k"]:
+            hits.append(("most-linked ranking is longer than asked for", {"length": len(got), "asked": arg["k"]}))
+        degs = [int(x.rsplit(":", 1)[1]) for x in _items(answer)]
+        if degs != sorted(degs, reverse=True):
+            hits.append(("most-linked ranking is not in descending order", {"answer": answer[:300]}))
+    if kind in ("weout", "wein"):
+        check_lower = static_we        # membership of the far ends moves when webentities are created: set-level bound only if none was
+    if check_lower and not lower <= set(got):
+        hits.append((miss_words, {"missing": sorted(map(str, lower - set(got)))[:3]}))
+    if not set(got) <= upper:
+        if phantom_words is None:
+            hits.append(("child-webentity query reports a webentity that lay below the prefixes at no moment of its execution",
+                         {"phantom": sorted(map(str, set(got) - upper))[:3]}))
+        else:
+            known.append((phantom_words, {"phantom": sorted(map(str, set(got) - upper))[:3]}))
+    if kind in ("mostlinked", "pagelinks"):
+        # the number attached to an item (indegree, weight) only grows; an item is (key, number): a number the key never had in a
+        # probe that lists it is the same kind of phantom (the page was visited after it had left the webentity)
+        for k, n in got.items():
+            vals = [m[k] for m in maps if k in m]
+            if vals and not (min(vals) <= n <= max(vals)):
+                known.append((("page query reports a most-linked page with an indegree: the page never belonged to the webentity while it had it"
+                               if kind == "mostlinked" else
+                               "page query reports a page link with a weight: the link with that weight existed at no moment of its execution"),
+                              {"item": k, "reported": n, "seen": sorted(set(vals))}))
+                break
+    return hits, known
+
+
 def extra_C16(tier, seed, scratch, cfg, out):
     from . import model
     hits, nscen, nsteps = [], (140 if tier == "quick" else 1500), 0
     known_hits = []
+    req_count, step_count, phantom_count = {}, {}, {}
     for i in range(nscen):
         r = random.Random(seed * 7907 + 16000 + i)
         prof = dict(PROFILES["C16"]); prof["read_rate"] = 0.0; prof["g1"] = 0.85
@@ -548,10 +722,9 @@ def extra_C16(tier, seed, scratch, cfg, out):
             carve_plan = None
             if i % 4 == 3:
                 reqs, carve_plan = _carve_scenario(r, ses)
-                base = list(ses.lines)
             else:
-                base = list(ses.lines)
                 reqs = _co_scenario(r, ses)
+            base = list(ses.lines)
             if len(reqs) < 2:
                 continue
             live = {}
@@ -562,12 +735,11 @@ def extra_C16(tier, seed, scratch, cfg, out):
 
             def probe():
                 for cid, st in live.items():
-                    if st["answer"] is None and st["kind"] == "pages":
-                        w, ps = st["arg"]
-                        st["probes"].append(ses.do("? pages %d %s" % (w, brack([hx(p) for p in ps]))))
-                    if st["answer"] is None and st["kind"] == "net":
-                        o, a = st["arg"]
-                        st["probes"].append(ses.do("? network %s %s 0" % (o, a)))
+                    if st["answer"] is None and st["kind"] in QUERY_KINDS:
+                        st["probes"].append(ses.do(_probe_line(st["kind"], st["arg"])))
+            for kind, _, _ in reqs:
+                req_count[kind] = req_count.get(kind, 0) + 1
+            we_before = ses.do("? prefixiter")
             probe()
             failed = None
             # schedules: uniformly random, or "one request for k steps, another to completion, then the rest"
@@ -590,12 +762,14 @@ def extra_C16(tier, seed, scratch, cfg, out):
                     cid = r.choice(alive)
                 ans = ses.do("co step %d" % cid)
                 nsteps += 1
+                step_count[live[cid]["kind"]] = step_count.get(live[cid]["kind"], 0) + 1
                 if ans.startswith("done "):
                     live[cid]["answer"] = ans[5:]
                 elif ans != "yield":
                     live[cid]["answer"] = ans
                     failed = (cid, ans)
                 probe()
+            static_we = ses.do("? prefixiter") == we_before       # no webentity was created while the generators ran
             ses.do("? pagesiter"); final_pages = ses.results[-1][0]
             ses.do("? counts"); final_counts = ses.results[-1][0]
             pages = [x.split(":")[0] for x in _items(final_pages)]
@@ -632,36 +806,13 @@ def extra_C16(tier, seed, scratch, cfg, out):
             hits.append({"kind": "co", "lines": lines, "finding": {"reason": "inbound/outbound lists are not symmetric after the schedule",
                          "out_only": sorted(set(nonself_out) - set(ins))[:3], "in_only": sorted(set(ins) - set(nonself_out))[:3], "schedule": sched}})
         for cid, st in live.items():
-            if st["kind"] == "pages" and st["answer"].startswith("ok"):
-                got = set(x.split(":")[0] for x in _items(st["answer"]))
-                sets = [set(x.split(":")[0] for x in _items(p)) for p in st["probes"] if p.startswith("ok")]
-                if sets:
-                    lower, upper = set.intersection(*sets), set.union(*sets)
-                    if not lower <= got:
-                        hits.append({"kind": "co", "lines": lines, "finding": {"reason": "page query misses a page that belonged to the webentity throughout its execution",
-                                     "missing": sorted(lower - got)[:3], "schedule": sched}})
-                    if not got <= upper:
-                        scen_known.append({"kind": "co", "lines": lines, "finding": {"reason": "page query reports a page that never belonged to the webentity during its execution",
-                                           "phantom": sorted(got - upper)[:3], "schedule": sched}})
-            if st["kind"] == "net" and st["answer"].startswith("ok"):
-                def pairs(a):
-                    ps = set()
-                    for row in _items(a):
-                        src = row.split(":")[0]
-                        inner = row.split("{")[1].rstrip("}")
-                        for tw in (inner.split("/") if inner else []):
-                            ps.add((src, tw.split("=")[0]))
-                    return ps
-                got = pairs(st["answer"])
-                sets = [pairs(p) for p in st["probes"] if p.startswith("ok")]
-                if sets:
-                    lower, upper = set.intersection(*sets), set.union(*sets)
-                    if not lower <= got:
-                        hits.append({"kind": "co", "lines": lines, "finding": {"reason": "network query misses a webentity link present throughout its execution",
-                                     "missing": sorted(lower - got)[:3], "schedule": sched}})
-                    if not got <= upper:
-                        scen_known.append({"kind": "co", "lines": lines, "finding": {"reason": "network query reports a webentity link that existed at no moment of its execution",
-                                           "phantom": sorted(got - upper)[:3], "schedule": sched}})
+            if st["kind"] in QUERY_KINDS and st["answer"].startswith("ok"):
+                h2, k2 = _judge_query(st["kind"], st["arg"], st["answer"], st["probes"], static_we)
+                for reason, detail in h2:
+                    hits.append({"kind": "co", "lines": lines, "finding": dict(detail, reason=reason, schedule=sched)})
+                for reason, detail in k2:
+                    scen_known.append({"kind": "co", "lines": lines, "finding": dict(detail, reason=reason, schedule=sched)})
+                    phantom_count[st["kind"]] = phantom_count.get(st["kind"], 0) + 1
         if hits:
             break
         # --- correspondence with the coroutine model on the same schedule
@@ -687,6 +838,8 @@ def extra_C16(tier, seed, scratch, cfg, out):
         except Exception as e:  # noqa
             out.notes.append("model driver unavailable for C16: %r" % e)
             known_hits += scen_known
-    out.extra["C16"] = {"scenarios": nscen, "generator_steps": nsteps, "phantom_items_seen": len(known_hits)}
+    out.extra["C16"] = {"scenarios": nscen, "generator_steps": nsteps, "phantom_items_seen": len(known_hits),
+                        "requests_by_kind": dict(sorted(req_count.items())), "steps_by_kind": dict(sorted(step_count.items())),
+                        "phantoms_by_kind": dict(sorted(phantom_count.items()))}
     real = [h for h in hits if h["kind"] != "no-failing-input-found"]
     return (real[:2] or hits[:1]) + known_hits[:1]
